@@ -1,4 +1,5 @@
 import MpfVerif.Lemmas.Delay
+import MpfVerif.Lemmas.DelayGen
 import MpfVerif.Lemmas.TimerDevice
 /-!
 # C13 — Delays and periodic timers fire exactly when promised, or never
@@ -13,21 +14,61 @@ not modelled (harness oracle only).
 namespace MpfVerif.C13
 open MpfVerif.Delay
 
-/-- **fires_once_at_due.**  In every run from the initial state, for every program table and schedule: a callback the
-loop fires (`fired hd t`) runs at exactly the due tick of its handle (`t = hd.due` = time of the `add`/`reset` + ms),
-that handle with exactly this name, callback and argument was scheduled earlier in the run (`sched hd`), and no handle
-id fires twice. -/
+/-- **fires_once_at_due.**  In every run from the initial state, for every program table (callbacks may re-add, remove,
+clear, `run_now`, raise, and *block the loop* for any time) and every schedule: a callback the loop fires (`fired hd t`)
+never runs before the due tick of its handle (`hd.due` = time of the `add`/`reset` + ms; a negative ms is due at once),
+and runs at **exactly** that tick when no callback of the run blocked the loop (`blocked d` is the observation of a
+callback that took `d` ticks); that handle with exactly this name, callback and argument was scheduled earlier in the run
+(`sched hd`), and no handle id fires twice.  How late a blocked loop may deliver is bounded by `late_only_while_blocked`. -/
 theorem fires_once_at_due (P : Nat → List Cmd) (ops : List Op) (s : St) (tr : List Obs)
     (h : run P init ops = some (s, tr)) :
-    (∀ hd t, .fired hd t ∈ tr → t = hd.due ∧ .sched hd ∈ tr) ∧ (firedHids tr).Nodup := by
+    (∀ hd t, .fired hd t ∈ tr → hd.due ≤ t ∧ ((∀ d, Obs.blocked d ∉ tr) → t = hd.due) ∧ .sched hd ∈ tr) ∧
+    (firedHids tr).Nodup := by
   obtain ⟨a, b, _⟩ := fires_once_at_due_from P ops init (s, tr) init_inv h
   refine ⟨?_, b⟩
   intro hd t hh
   obtain ⟨c1, c2⟩ := a hd t hh
-  refine ⟨c1, ?_⟩
+  refine ⟨c1.1, fun hb => c1.2 hb rfl, ?_⟩
   rcases c2 with c | c
   · simp [init] at c
   · exact c
+
+/-- **late_only_while_blocked** (late delivery shifts nothing else).  In every reachable state `slack` is the time for which
+callbacks have blocked the loop since it was last idle (`to` resets it, `block d` adds `d`, nothing else changes it).
+(a) A delay the loop fires in that state is late by at most `slack`, and so is a periodic tick; with `slack = 0` both are
+exact.  (b) The loop never sleeps past anything that is due: a `to t` step is impossible while a live delay or a running
+periodic task is due before `t` — so a late callback is delivered in the first loop iteration at or after its due tick —
+and (c) lateness never moves a deadline: `due` of every other pending handle is what `add` computed (handles are
+immutable in the model; `fires_once_at_due` shows each fires against its own `due`). -/
+theorem late_only_while_blocked (P : Nat → List Cmd) (ops : List Op) (s : St) (tr : List Obs)
+    (h : run P init ops = some (s, tr)) :
+    (∀ hid r, step P s (.fire hid) = some r → ∀ hd t, .fired hd t ∈ r.2 → hd.due ≤ t ∧ t ≤ hd.due + s.slack) ∧
+    (∀ pid r, step P s (.pfire pid) = some r → ∀ k n t, .tick k n t ∈ r.2 →
+        ∃ p ∈ r.1.pers, p.pid = k ∧ p.t0 + n * p.interval ≤ t ∧ t ≤ p.t0 + n * p.interval + s.slack) ∧
+    (∀ t r, step P s (.to t) = some r → (∀ hd ∈ s.live, t ≤ hd.due) ∧
+        (∀ p ∈ s.pers, p.canceled = false → t ≤ p.t0 + (p.count + 1) * p.interval) ∧ r.1.slack = 0) := by
+  have i : Inv s := run_inv P ops init (s, tr) init_inv h
+  refine ⟨?_, ?_, ?_⟩
+  · intro hid r hr hd t hf
+    exact ((step_facts P s (.fire hid) r i hr).fired_ok hd t hf).2.1
+  · intro pid r hr k n t hf
+    obtain ⟨_, p', hp', a1, a2, _⟩ := (step_facts P s (.pfire pid) r i hr).tick_ok k n t hf
+    exact ⟨p', hp', a1, a2.1, a2.2⟩
+  · intro t r hr
+    simp only [step] at hr
+    split at hr
+    · rename_i c
+      obtain ⟨_, c2, c3⟩ := c
+      simp only [List.all_eq_true, decide_eq_true_eq, Bool.or_eq_true] at c2 c3
+      injection hr with hr; subst hr
+      refine ⟨c2, ?_, rfl⟩
+      intro p hp hc
+      rcases c3 p hp with a | a
+      · simp [hc] at a
+      · have := i.last_eq p hp
+        simp only [Per.due] at a
+        rw [Nat.succ_mul]; omega
+    · cases hr
 
 /-- **never_after_cancel.**  If anywhere in a run a handle was cancelled (`remove`, replacement by `add`/`reset` under
 the same name, `clear`, `run_now` — each emits `cancel hid` for the handle it unschedules), then no continuation of that
@@ -98,11 +139,12 @@ theorem cancel_by_name (P : Nat → List Cmd) (s : St) (i : Inv s) (n : Nat) :
     · exact c
 
 /-- **fires_unless_cancelled** ("exactly once … unless removed/replaced"): at the end of every run every handle that was
-ever scheduled has fired, or was cancelled, or is still pending and *not overdue* (`s.now ≤ h.due`) — time cannot have
-passed its due tick without it firing. -/
+ever scheduled has fired, or was cancelled, or is still pending and *not overdue* beyond the time for which the loop is
+blocked right now (`s.now ≤ h.due + s.slack`; `slack = 0` whenever the loop has been idle since) — the loop cannot have
+slept past its due tick without it firing (`late_only_while_blocked` (b)). -/
 theorem fires_unless_cancelled (P : Nat → List Cmd) (ops : List Op) (s : St) (tr : List Obs)
     (h : run P init ops = some (s, tr)) :
-    ∀ hd, .sched hd ∈ tr → (hd ∈ s.live ∧ s.now ≤ hd.due) ∨ .cancel hd.hid ∈ tr ∨ hd.hid ∈ firedHids tr := by
+    ∀ hd, .sched hd ∈ tr → (hd ∈ s.live ∧ s.now ≤ hd.due + s.slack) ∨ .cancel hd.hid ∈ tr ∨ hd.hid ∈ firedHids tr := by
   intro hd hs
   have i : Inv s := run_inv P ops init (s, tr) init_inv h
   rcases (accounted_from P ops init (s, tr) init_inv h).2 hd hs with a | a
@@ -128,10 +170,12 @@ theorem check_truthful (P : Nat → List Cmd) (ops : List Op) (s : St) (tr : Lis
 
 /-- **run_now_same_args_and_cancels.**  In every reachable state with a live handle `hd` named `n`, `run_now(n)` calls
 exactly `hd`'s callback with `hd`'s argument now (the observation and the program pushed on the agenda), unschedules
-`hd` (it is dead afterwards: it will never fire) and leaves no live handle under that name. -/
+`hd` (it is dead afterwards: it will never fire) and leaves no live handle under that name.  (`endTry` marks the end of
+the `try … except KeyError` that `run_now` has around the callback: a KeyError raised by the callback's program unwinds
+to it and is swallowed — `Gen`: `run_now_swallows_exactly_KeyError`.) -/
 theorem run_now_same_args_and_cancels (P : Nat → List Cmd) (ops : List Op) (s : St) (tr : List Obs) (n : Nat)
     (hd : Handle) (h : run P init ops = some (s, tr)) (hl : hd ∈ s.live) (hn : hd.name = n) :
-    .ranNow (entryOf hd) s.now ∈ (stepCmd P s (.runNow n)).2.1 ∧ (stepCmd P s (.runNow n)).2.2 = P hd.cb ∧
+    .ranNow (entryOf hd) s.now ∈ (stepCmd P s (.runNow n)).2.1 ∧ (stepCmd P s (.runNow n)).2.2 = P hd.cb ++ [.endTry] ∧
     Dead (stepCmd P s (.runNow n)).1 hd.hid ∧ ∀ x ∈ (stepCmd P s (.runNow n)).1.live, x.name ≠ n := by
   have i : Inv s := run_inv P ops init (s, tr) init_inv h
   have he := i.live_entry hd hl
@@ -143,7 +187,7 @@ theorem run_now_same_args_and_cancels (P : Nat → List Cmd) (ops : List Op) (s 
     obtain ⟨hm, hne⟩ := find_name hf
     have ee : e = entryOf hd := pairwise_uniq (fun a : Entry => a.name) i.names hm he (by simp [hne, entryOf, hn])
     subst ee
-    have hs : stepCmd P s (.runNow n) = ((popName s n).1, (popName s n).2 ++ [.ranNow (entryOf hd) s.now], P hd.cb) := by
+    have hs : stepCmd P s (.runNow n) = ((popName s n).1, (popName s n).2 ++ [.ranNow (entryOf hd) s.now], P hd.cb ++ [.endTry]) := by
       simp [stepCmd, St.entry?, hf, entryOf]
     rw [hs]
     have g := popName_good s n i
@@ -153,14 +197,41 @@ theorem run_now_same_args_and_cancels (P : Nat → List Cmd) (ops : List Op) (s 
     · intro x hx e
       exact popName_noname s n _ (g.inv.live_entry x hx) e
 
-/-- **periodic_no_drift.**  In every run, the n-th callback of a periodic task (`tick pid n t`; `n` is the task's own
-running count, starting at 1) happens at exactly `t0 + n * interval`, where `t0`/`interval` are the creation time and
-interval of the (unique, see `Inv.pids`) task with that id — absolute rescheduling, for all n, whatever else happens at
-those instants. -/
+/-- **periodic_no_drift** (over arbitrary late deliveries).  In every run — callbacks may block the loop for any time, so
+ticks may be delivered late — the n-th callback of a periodic task (`tick pid n t`; `n` is the task's own running count,
+starting at 1) is never before `t0 + n * interval`, where `t0`/`interval` are the creation time and interval of the
+(unique, see `Inv.pids`) task with that id, and is at **exactly** that instant when nothing blocked the loop in the run.
+Lateness is not carried forward: the (n+1)-th tick is enabled at `t0 + (n+1) * interval` whatever the time the n-th one
+ran (`reachable_periodic_schedule_is_absolute`), missed ticks are delivered back to back and the loop cannot sleep before
+the count has caught up (`late_only_while_blocked` (b)). -/
 theorem periodic_no_drift (P : Nat → List Cmd) (ops : List Op) (s : St) (tr : List Obs)
     (h : run P init ops = some (s, tr)) : ∀ pid n t, .tick pid n t ∈ tr →
-      ∃ p ∈ s.pers, p.pid = pid ∧ t = p.t0 + n * p.interval ∧ 1 ≤ n ∧ n ≤ p.count :=
-  periodic_no_drift_from P ops init (s, tr) init_inv h
+      ∃ p ∈ s.pers, p.pid = pid ∧ p.t0 + n * p.interval ≤ t ∧
+        ((∀ d, Obs.blocked d ∉ tr) → t = p.t0 + n * p.interval) ∧ 1 ≤ n ∧ n ≤ p.count := by
+  intro pid n t hh
+  obtain ⟨p, hp, a1, a2, a3⟩ := periodic_no_drift_from P ops init (s, tr) init_inv h pid n t hh
+  exact ⟨p, hp, a1, a2.1, fun hb => a2.2 hb rfl, a3⟩
+
+/-- **reachable_periodic_schedule_is_absolute.**  In every reachable state, whatever lateness there has been, the next
+callback of a periodic task that has made `count` callbacks is due at exactly `t0 + (count + 1) * interval`: the loop may
+run it (`pfire`) iff it is not cancelled and that instant has come. -/
+theorem reachable_periodic_schedule_is_absolute (P : Nat → List Cmd) (ops : List Op) (s : St) (tr : List Obs)
+    (h : run P init ops = some (s, tr)) : ∀ p ∈ s.pers, p.due = p.t0 + (p.count + 1) * p.interval ∧
+      ((step P s (.pfire p.pid)).isSome = true ↔ (p.canceled = false ∧ p.t0 + (p.count + 1) * p.interval ≤ s.now)) := by
+  have i : Inv s := run_inv P ops init (s, tr) init_inv h
+  intro p hp
+  have hl := i.last_eq p hp
+  have hd : p.due = p.t0 + (p.count + 1) * p.interval := by simp only [Per.due]; rw [Nat.succ_mul]; omega
+  refine ⟨hd, ?_⟩
+  have hf : s.pers.find? (fun q => q.pid == p.pid) = some p := by
+    cases hq : s.pers.find? (fun q => q.pid == p.pid) with
+    | none => have := List.find?_eq_none.mp hq p hp; simp at this
+    | some q =>
+      obtain ⟨hm, he⟩ := find_pid hq
+      rw [pairwise_uniq (fun a : Per => a.pid) i.pids hm hp he]
+  simp only [step, hf]
+  rw [← hd]
+  cases hc : p.canceled <;> simp
 
 /-- **no_tick_after_cancel** (`no_tick_unless_running` for clock intervals): once `pcancel pid` was executed on an
 existing task, no continuation of the run makes that task tick again. -/
@@ -184,6 +255,155 @@ theorem no_tick_after_cancel (P : Nat → List Cmd) (ops : List Op) (s0 s : St) 
         simp [c] at this
       · exact ih r1.1 r2 F.inv (F.pdead pid d1) h2 n t a
   exact key ops _ (s, tr) g.inv d h
+
+/-! ## the hand model is what `mpf/core/delays.py` says (translated source, regenerated on every check) -/
+
+open MpfVerif.Py in
+/-- the generated program of a DelayManager command and the arguments it is called with (`msv` is the `ms` argument as the
+caller wrote it: an int or a float, any sign; `anon`: `add` without a name, the name comes from `uuid4`) -/
+def srcOf (N : Names) (msv : PyVal) (anon : Bool) : Cmd → Option ((List Py.DSt ⊕ List Py.DTop) × List (String × PyVal))
+  | .add _ n cb a =>
+    some (.inl Gen.DelayOps.add, if anon then [("ms", msv), ("callback", .int cb), ("kwargs", .int a)]
+                                  else [("ms", msv), ("callback", .int cb), ("name", N.nm n), ("kwargs", .int a)])
+  | .addIf _ n cb a =>
+    some (.inl Gen.DelayOps.add_if_doesnt_exist, [("ms", msv), ("callback", .int cb), ("name", N.nm n), ("kwargs", .int a)])
+  | .reset _ n cb a =>
+    some (.inl Gen.DelayOps.reset, [("ms", msv), ("callback", .int cb), ("name", N.nm n), ("kwargs", .int a)])
+  | .remove n => some (.inl Gen.DelayOps.remove, [("name", N.nm n)])
+  | .clear => some (.inr Gen.DelayOps.clear, [])
+  | .runNow n => some (.inl Gen.DelayOps.run_now, [("name", N.nm n)])
+  | .check n => some (.inl Gen.DelayOps.check, [("delay", N.nm n)])
+  | _ => none
+
+/-- the delay of the command is what the loop makes of the `ms` argument (µs; negative = now; see `usOf`) -/
+def msOk (msv : MpfVerif.Py.PyVal) : Cmd → Prop
+  | .add d _ _ _ => usOf msv = some d
+  | .addIf d _ _ _ => usOf msv = some d
+  | .reset d _ _ _ => usOf msv = some d
+  | _ => True
+
+/-- the fresh name `uuid4` answers is the name the anonymous `add` is modelled with -/
+def freshOk (N : Names) (fr : MpfVerif.Py.PyVal) (anon : Bool) : Cmd → Prop
+  | .add _ n _ _ => anon = true → fr = N.nm n
+  | _ => True
+
+open MpfVerif.Py in
+def runSrc (c : Ctx) (ora : DOracle) (H : Dict) : (List Py.DSt ⊕ List Py.DTop) → List (String × PyVal) →
+    Dict × List Eff × Except Err PyVal
+  | .inl p, args => callD c ora H p args
+  | .inr p, args => callT c ora H p args
+
+open MpfVerif.Py in
+/-- **delay_ops_refine_source.**  For every reachable-style state (`Inv`: the dict and the loop's live handles are coupled —
+proved for all reachable states by `run_inv`), every command `add / add_if_doesnt_exist / reset / remove / clear / run_now /
+check` on any name, callback, kwargs and any `ms` that is an int or a float (negative, zero, fractional), named or
+anonymous: running the **translated source** of the method on the dict of the state and folding its calls on the clock
+(`schedule_once`, `unschedule`), on the stored callback and on `uuid4` gives exactly what the hand model's `stepCmd`
+computes — the same dict, the same live handles with the same due times, the same next handle id, the same handles
+scheduled and cancelled in the same order, the same callbacks called with the same kwargs, and no call the model has no
+meaning for.  Hence every theorem of this file about `stepCmd`/`run` is a theorem about `mpf/core/delays.py` as it is now.
+What a called callback answers (a value, or any exception) is arbitrary. -/
+theorem delay_ops_refine_source (P : Nat → List Cmd) (N : Names) (c : Ctx) (ora : DOracle) (s : Delay.St) (i : Inv s)
+    (fr msv : PyVal) (anon : Bool) (ho : OraOk ora s.nextId fr) (cmd : Cmd) (prog : List Py.DSt ⊕ List Py.DTop)
+    (args : List (String × PyVal)) (hsrc : srcOf N msv anon cmd = some (prog, args)) (hms : msOk msv cmd)
+    (hfr : freshOk N fr anon cmd) :
+    gen N s (runSrc c ora (heapOf N s.delays) prog args) = hand N (stepCmd P s cmd) := by
+  cases cmd with
+  | add d n cb a =>
+    simp only [srcOf, Option.some.injEq, Prod.mk.injEq] at hsrc; obtain ⟨rfl, rfl⟩ := hsrc
+    cases anon
+    · exact add_refines P N c ora s i fr ho msv d n cb a hms
+    · have := hfr rfl; subst this
+      exact add_anon_refines P N c ora s i n ho msv d cb a hms
+  | addIf d n cb a =>
+    simp only [srcOf, Option.some.injEq, Prod.mk.injEq] at hsrc; obtain ⟨rfl, rfl⟩ := hsrc
+    exact add_if_refines P N c ora s i fr ho msv d n cb a hms
+  | reset d n cb a =>
+    simp only [srcOf, Option.some.injEq, Prod.mk.injEq] at hsrc; obtain ⟨rfl, rfl⟩ := hsrc
+    exact reset_refines P N c ora s i fr ho msv d n cb a hms
+  | remove n =>
+    simp only [srcOf, Option.some.injEq, Prod.mk.injEq] at hsrc; obtain ⟨rfl, rfl⟩ := hsrc
+    exact remove_refines P N c ora s i fr ho n
+  | clear =>
+    simp only [srcOf, Option.some.injEq, Prod.mk.injEq] at hsrc; obtain ⟨rfl, rfl⟩ := hsrc
+    exact clear_refines P N c ora s i fr ho
+  | runNow n =>
+    simp only [srcOf, Option.some.injEq, Prod.mk.injEq] at hsrc; obtain ⟨rfl, rfl⟩ := hsrc
+    exact (run_now_refines P N c ora s i fr ho n).1
+  | check n =>
+    simp only [srcOf, Option.some.injEq, Prod.mk.injEq] at hsrc; obtain ⟨rfl, rfl⟩ := hsrc
+    exact (check_refines P N c ora s n).1
+  | pstart _ _ => simp [srcOf] at hsrc
+  | pcancel _ => simp [srcOf] at hsrc
+  | prestart _ _ _ => simp [srcOf] at hsrc
+  | block _ => simp [srcOf] at hsrc
+  | raise _ => simp [srcOf] at hsrc
+  | endTry => simp [srcOf] at hsrc
+
+open MpfVerif.Py in
+/-- **check_and_callbacks_refine_source.**  (a) The translated `check(name)` returns exactly the model's answer.  (b) What
+`run_now` pushes on the model's agenda is the program of exactly the callbacks the translated `run_now` called, each
+followed by the `endTry` marker.  (c) The translated `_process_delay_callback(name, callback, **kwargs)` — what the loop
+runs when a handle is due — drops the entry under the name, calls the stored callback with the stored kwargs and makes no
+clock call: the `fire` step of the model. -/
+theorem check_and_callbacks_refine_source (P : Nat → List Cmd) (N : Names) (c : Ctx) (ora : DOracle) (s : Delay.St) (i : Inv s)
+    (fr : PyVal) (ho : OraOk ora s.nextId fr) (n : Nat) :
+    (callD c ora (heapOf N s.delays) Gen.DelayOps.check [("delay", N.nm n)]).2.2 =
+      .ok (.bool (s.delays.any (fun e => e.name == n))) ∧
+    (stepCmd P s (.runNow n)).2.2 =
+      pushedRunNow P (gen N s (callD c ora (heapOf N s.delays) Gen.DelayOps.run_now [("name", N.nm n)])).calls ∧
+    (∀ h ∈ s.live,
+      let r := gen N s (callD c ora (heapOf N s.delays) Gen.DelayOps.p_process_delay_callback
+        [("name", N.nm h.name), ("callback", .int h.cb), ("kwargs", .int h.arg)])
+      r.dict = heapOf N (s.delays.filter (fun e => e.name != h.name)) ∧ r.live = s.live ∧ r.nextId = s.nextId ∧
+      r.obs = [] ∧ r.calls = [(h.cb, h.arg)] ∧ r.unknown = false) :=
+  ⟨(check_refines P N c ora s n).2, (run_now_refines P N c ora s i fr ho n).2, fun h hl => pdc_refines N c ora s i fr ho h hl⟩
+
+open MpfVerif.Py in
+/-- **raising_callbacks_in_source** (a callback that raises).  In the translated source, for a pending delay: `run_now`
+returns normally when the callback returns or raises `KeyError` (its `except KeyError` swallows it — the model's
+`raise true` unwinds to the `endTry` marker) and passes every other exception on; the entry is gone and its handle
+unscheduled *before* the callback runs in all three cases.  `_process_delay_callback` passes every exception on to the
+loop, after the entry was dropped, and then does not run the event queue. -/
+theorem raising_callbacks_in_source (N : Names) (c : Ctx) (ora : DOracle) (s : Delay.St) (i : Inv s) (fr : PyVal)
+    (ho : OraOk ora s.nextId fr) (e : Entry) (n : Nat) (hf : s.delays.find? (fun e => e.name == n) = some e) (x : Err) :
+    (ora (callEff e.cb e.arg) = .error x →
+      (callD c ora (heapOf N s.delays) Gen.DelayOps.run_now [("name", N.nm n)]) =
+        (heapOf N (popD s.delays n), popE s.delays n ++ [callEff e.cb e.arg],
+          if x = "KeyError" then .ok .none else .error x)) ∧
+    (ora (callEff e.cb e.arg) = .error x →
+      (callD c ora (heapOf N s.delays) Gen.DelayOps.p_process_delay_callback
+        [("name", N.nm n), ("callback", .int e.cb), ("kwargs", .int e.arg)]) =
+        (heapOf N (popD s.delays n), [callEff e.cb e.arg], .error x)) := by
+  constructor
+  · intro hr
+    have h1 := run_now_run N c ora s.delays i.names (argLocals [("name", N.nm n)]) n s.nextId fr ho
+      (by simp [argLocals, List.lookup])
+    simp only [hf, hr, swallow] at h1
+    rw [callD_eq c ora _ _ _ h1]
+    by_cases hx : x = "KeyError" <;> simp [hx, Except.map]
+  · intro hr
+    have h1 := pdc_run N c ora s.delays i.names
+      (argLocals [("name", N.nm n), ("callback", .int e.cb), ("kwargs", .int e.arg)]) n e.cb e.arg s.nextId fr ho
+      (by simp [argLocals, List.lookup]) (by simp [argLocals, List.lookup]) (by simp [argLocals, List.lookup])
+    simp only [hr] at h1
+    rw [callD_eq c ora _ _ _ h1]
+    simp [Except.map]
+
+/-- non-vacuity, computed by running the **translated source** (not the hand model): on a dict holding delay 7 (handle 3,
+callback 2, kwargs 5) `add(-250, cb 4, name 7, kwargs 9)` unschedules handle 3, schedules a new handle with timeout
+-0.25 s and stores it; the fold gives one live handle, due *now* (10), named 7.  `Names` exist (`n ↦ n + 1`). -/
+def demoNames : Names := ⟨fun n => .int (n + 1), fun v => (natOf v) - 1, by intro n; simp [natOf],
+  by intro n; simp [MpfVerif.Py.PyVal.truthy]; omega⟩
+
+open MpfVerif.Py in
+example :
+    let s : Delay.St := { now := 10, nextId := 4, delays := [⟨7, 3, 2, 5⟩], live := [⟨3, 7, 2, 5, 12⟩] }
+    let ora : DOracle := fun e => if e.meth = "schedule_once" then .ok (.int 4) else .ok .none
+    let r := gen demoNames s (callD ⟨fun _ => .none, fun _ => .none⟩ ora (heapOf demoNames s.delays) Gen.DelayOps.add
+      [("ms", .int (-250)), ("callback", .int 4), ("name", .int 8), ("kwargs", .int 9)])
+    r.live = [⟨4, 7, 4, 9, 10⟩] ∧ r.obs = [.cancel 3, .sched ⟨4, 7, 4, 9, 10⟩] ∧ r.nextId = 5 ∧ r.unknown = false ∧
+    r.dict = [(.int 8, [.int 4, .int 4, .int 9])] := by decide
 
 /-! ## the hypotheses are satisfiable on concrete non-trivial runs (kernel evaluation) -/
 
